@@ -224,7 +224,7 @@ func runConcWithFault(sc ConcScenario, hf *HandlerFault, prefix []int) (res *Con
 		}
 	}
 	if sc.Cfg.Lock != "none" {
-		res.Mon = InstallLockMonitor(s, lockedConsts(sc.Cfg.Lock == "multi", sc.Cfg.Conc))
+		res.Mon = InstallLockMonitor(s, lockedSlot(sc.Cfg))
 		defer res.Mon.Uninstall()
 	}
 	if !sc.NoBackendPoints {
